@@ -1,5 +1,7 @@
 --------------------------- MODULE MC_Rewrite ---------------------------
 EXTENDS Rewrite, Json
+AllSeeds == 1..NSeeds
+HandOnly == 1..NHandSeeds
 EmitInv ==
   PrintT(<<"STATE", ToJson([seed |-> seed, steps |-> steps, rule |-> rule, rules |-> SetToSeq(rules), env |-> env, ty |-> ty,
                             probes |-> IF steps = 0 THEN SetToSeq(SeedProbes) ELSE <<>>])>>)
